@@ -148,3 +148,34 @@ VARIANTS = [
     fire('c18-indent-order', ['C18'], [(MI, "        return indent_property.__get__(instance).value + indent_by_field.__get__(instance)", "        return indent_by_field.__get__(instance) + indent_property.__get__(instance).value")], 'IND-FLOW'),
     fire('c18-last-sibling', ['C18'], [(MI, "        first = next(super().__iter__(), None)", "        first = next(reversed(list(super().__iter__())), None)")], 'IND-FLOW'),
 ]
+
+PRN = 'autobean_refactor/printer.py'
+TWINS = [
+    silent('twin-printer-join', ['C01', 'C04'], [(PRN, "    for token in model.tokens:\n        file.write(token.raw_text)\n", "    file.write(''.join(token.raw_text for token in model.tokens))\n")]),
+    silent('twin-fixgap-rename', ['C01', 'C14'], [(PA, "        for token in self._tokens[self._cursor:cursor]:\n            if not token.value:  # skips EOL, INDENT_MARK, DEDENT_MARK, etc. if outside a model.\n                continue\n            built_token = models.TOKEN_MODELS[token.type].from_raw_text(token.value)\n            if isinstance(built_token, models.BlockComment):\n                built_token.claimed = False\n            self._add_tokens([built_token])",
+                                                   "        for tok in self._tokens[self._cursor:cursor]:\n            if not tok.value:\n                continue\n            built = models.TOKEN_MODELS[tok.type].from_raw_text(tok.value)\n            if isinstance(built, models.BlockComment):\n                built.claimed = False\n            self._add_tokens([built])")]),
+    silent('twin-spacing-rename', ['C17', 'C19', 'C04'], [(SP, "        current_tokens = self.raw_spacing_after\n        if current_tokens:\n            self.token_store.splice(tokens, current_tokens[0], current_tokens[-1])",
+                                                            "        cur = self.raw_spacing_after\n        if cur:\n            self.token_store.splice(tokens, cur[0], cur[-1])")]),
+    silent('twin-get-indent-branches', ['C18'], [(MI, "        if first is None:\n            return self._default_indent_getter()\n        return first.indent", "        if first is not None:\n            return first.indent\n        return self._default_indent_getter()")]),
+    silent('twin-deepcopy-comprehension', ['C11', 'C04'], [(BA, "        tokens: list[RawTokenModel] = []\n        token_map: dict[int, RawTokenModel] = {}\n        for token in self._token_store.iter(self.first_token, self.last_token):\n            new_token = copy.deepcopy(token)\n            tokens.append(new_token)\n            token_map[id(token)] = new_token\n",
+                                                             "        originals = list(self._token_store.iter(self.first_token, self.last_token))\n        tokens: list[RawTokenModel] = [copy.deepcopy(token) for token in originals]\n        token_map: dict[int, RawTokenModel] = {id(a): b for a, b in zip(originals, tokens)}\n")]),
+    silent('twin-handle-splice-rename', ['C10'], [(VP, "        ll = bisect.bisect_left(self._raw_indexes, l)\n        rr = bisect.bisect_left(self._raw_indexes, r)\n        diff = len(values) - r + l\n        self._raw_indexes[ll:rr] = filtered_indexes\n        if diff:\n            for i in range(ll + len(filtered_indexes), len(self._raw_indexes)):",
+                                                   "        lo = bisect.bisect_left(self._raw_indexes, l)\n        hi = bisect.bisect_left(self._raw_indexes, r)\n        diff = l - r + len(values)\n        self._raw_indexes[lo:hi] = filtered_indexes\n        if diff:\n            for i in range(len(filtered_indexes) + lo, len(self._raw_indexes)):")]),
+    silent('twin-insert-normalise-ifexp', ['C10', 'C05', 'C19'], [(PR, "        length = len(self._repeated.items)\n        if index < 0:\n            index = max(0, index + length)\n        index = min(index, length)",
+                                                                  "        length = len(self._repeated.items)\n        index = max(0, index + length) if index < 0 else index\n        index = min(index, length)")]),
+    silent('twin-get-prev-elif', ['C07'], [(TS, "        if handle.index:\n            return handle.block.tokens[handle.index - 1]\n        if handle.block.index and self._blocks[handle.block.index - 1].tokens:\n            return self._blocks[handle.block.index - 1].tokens[-1]\n        return None",
+                                            "        if handle.index:\n            return handle.block.tokens[handle.index - 1]\n        elif handle.block.index and self._blocks[handle.block.index - 1].tokens:\n            return self._blocks[handle.block.index - 1].tokens[-1]\n        else:\n            return None")]),
+    silent('twin-editor-rename', ['C16'], [(ED, "        updated_text = printer.print_model(file, io.StringIO()).getvalue()\n        if updated_text != text:\n            with p.open('w', newline='') as f:\n                f.write(updated_text)",
+                                            "        printed = printer.print_model(file, io.StringIO()).getvalue()\n        if printed != text:\n            with p.open('w', newline='') as out:\n                out.write(printed)")]),
+    silent('twin-claim-comment-early-return', ['C14', 'C04', 'C19'], [(SC, "    if comment.claimed:\n        if ignore_if_already_claimed:\n            return None\n        raise ValueError('Comment already claimed.')\n    comment.claimed = True",
+                                                                       "    if comment.claimed and ignore_if_already_claimed:\n        return None\n    if comment.claimed:\n        raise ValueError('Comment already claimed.')\n    comment.claimed = True")]),
+    silent('twin-replace-node-local', ['C05', 'C19', 'C03'], [(PR, "    token_store.splice(repl.detach(), node.first_token, node.last_token)\n    if isinstance(repl, base.RawTreeModel):\n        repl.reattach(token_store)",
+                                                               "    new_tokens = repl.detach()\n    token_store.splice(new_tokens, node.first_token, node.last_token)\n    if isinstance(repl, base.RawTreeModel):\n        repl.reattach(token_store)")]),
+    silent('twin-cost-merge-early', ['C09', 'C19'], [(CS, "        current = self.merge\n        if current and not value:\n            self.raw_asterisk = None\n        elif not current and value:\n            self.raw_asterisk = Asterisk.from_default()",
+                                                     "        current = self.merge\n        if bool(current) == bool(value):\n            return\n        self.raw_asterisk = Asterisk.from_default() if value else None")]),
+    silent('twin-eq-order', ['C20'], [(BA, "        return isinstance(other, RawTreeModel) and self.tokens == other.tokens and self._eq(other)", "        return isinstance(other, RawTreeModel) and self._eq(other) and self.tokens == other.tokens")]),
+    silent('twin-postlex-local', ['C01'], [(PA, "            if comment_text:\n                prev_is_block_comment = True\n                yield lark.Token.new_borrow_pos(self._BLOCK_COMMENT, indent_text + comment_text, token)",
+                                            "            if comment_text:\n                yield lark.Token.new_borrow_pos(self._BLOCK_COMMENT, indent_text + comment_text, token)\n                prev_is_block_comment = True")]),
+    silent('twin-blockcomment-format', ['C12'], [(BC, "    lines = s.split('\\n')\n    return [line + '\\n' for line in lines[:-1]] + [lines[-1]]", "    parts = s.split('\\n')\n    return [part + '\\n' for part in parts[:-1]] + parts[-1:]")]),
+]
+VARIANTS += TWINS
